@@ -21,6 +21,7 @@ package dtls
 
 import (
 	"fmt"
+	"strings"
 	"sync"
 	"testing"
 	"time"
@@ -262,35 +263,43 @@ func c16FlowRun(c c16FlowCase, grace time.Duration) (key, msg string, classes ma
 	return "", "", classes
 }
 
-// c16Timed runs a check whose verdict may depend on a one-sided time bound: a miss ("slow:" key) is
-// repeated, and is dropped as inconclusive when the process' own timers were late.
-func c16Timed(run func() (string, string, map[string]bool)) (key, msg string, classes map[string]bool) {
+// c16Timed runs a check whose verdict may depend on a one-sided time bound. A run reports such a miss
+// with a "slow:" key: it only counts when it is seen twice while this process' own timers were on
+// time (lateness <= excuse); otherwise it is dropped as inconclusive. A "tmo:" key says that only a
+// time-out stood in the way of something that should have worked: it is tried once more and never
+// counts.
+func c16Timed(excuse time.Duration, run func() (string, string, map[string]bool)) (key, msg string, classes map[string]bool) {
 	misses := 0
-	stalled := false
-	for attempt := 0; attempt < 4; attempt++ {
+	marks := map[string]bool{}
+	for attempt := 0; attempt < 3; attempt++ {
 		can := c16StartCanary()
 		key, msg, classes = run()
 		late := can.Stop()
-		if stalled {
-			classes["inconclusive-machine-stalled"] = true
+		if classes == nil {
+			classes = map[string]bool{}
 		}
-		if len(key) > 4 && key[:4] == "tmo:" {
-			// only a time-out stood in the way: proves nothing, try again, never counts
+		for k := range marks {
+			classes[k] = true
+		}
+		switch {
+		case strings.HasPrefix(key, "tmo:"):
+			marks["inconclusive-timeout"] = true
 			classes["inconclusive-timeout"] = true
-			stalled = true
-			continue
-		}
-		if len(key) < 5 || key[:5] != "slow:" {
+			if attempt >= 1 {
+				return "", "", classes
+			}
+		case strings.HasPrefix(key, "slow:"):
+			if late > excuse {
+				marks["inconclusive-machine-stalled"] = true
+				classes["inconclusive-machine-stalled"] = true
+				continue
+			}
+			misses++
+			if misses >= 2 {
+				return key[5:], msg + fmt.Sprintf(" (seen twice; worst timer lateness in the last run %v)", late), classes
+			}
+		default:
 			return
-		}
-		if late > c16Stalled {
-			stalled = true
-			classes["inconclusive-machine-stalled"] = true
-			continue
-		}
-		misses++
-		if misses >= 2 { // missed twice with this process' timers on time
-			return key[5:], msg + fmt.Sprintf(" (seen twice; worst timer lateness in the last run %v)", late), classes
 		}
 	}
 	classes["inconclusive"] = true
@@ -299,7 +308,7 @@ func c16Timed(run func() (string, string, map[string]bool)) (key, msg string, cl
 
 func c16FlowCheck(t vh.Fataler, rec *vh.Rec, c c16FlowCase) {
 	grace := time.Duration(vh.Pick(1500, 3000)) * time.Microsecond
-	key, msg, cl := c16Timed(func() (string, string, map[string]bool) { return c16FlowRun(c, grace) })
+	key, msg, cl := c16Timed(500*time.Millisecond, func() (string, string, map[string]bool) { return c16FlowRun(c, grace) })
 	var classes []string
 	for k := range cl {
 		classes = append(classes, k)
@@ -571,7 +580,7 @@ func c16DogCheck(t vh.Fataler, rec *vh.Rec, c c16DogCase) {
 	if c.IntervalMs < 20 || c.HBs < 0 || c.HBs > 16 || c.PhaseMs < 0 || c.DataLen < 1 {
 		t.Fatalf("harness problem: malformed watchdog case %+v", c)
 	}
-	key, msg, cl := c16Timed(func() (string, string, map[string]bool) { return c16DogRun(c) })
+	key, msg, cl := c16Timed(c16Stalled, func() (string, string, map[string]bool) { return c16DogRun(c) })
 	var classes []string
 	for k := range cl {
 		classes = append(classes, k)
